@@ -634,6 +634,12 @@ class Run:
         def rootfn(b, *a, **k):
             state['invoked'] = True
             run.ev(ev='root_begin', sent=terms.show(r_args) + terms.show(r_kw), recv=terms.show(list(a)) + terms.show(dict(k)))
+            if (self.sc.get('oracle') or {}).get('mutate') and isinstance(a_vers, dict):
+                # C11: the caller keeps its versions object and edits it while the build runs
+                for val in list(a_vers.values()):
+                    mutate_in_place(val)
+                for fname in ('f0a', 'f0b', 'f1a', 'f1b', 'f2a'):
+                    a_vers.setdefault(fname, 'late-%d' % self.build_no)
             try:
                 return run.run_frame(b, root)
             except BaseException as x:
